@@ -17,6 +17,11 @@ pub struct Case {
     pub timer: Option<(u64, u32, u32, u8)>,
     /// write the timer range as a..b+1 instead of a..=b
     pub half_open: bool,
+    /// what follows the first execution: 0 nothing, 1 the object file below is loaded over the used machine and run,
+    /// 2 reset(), then loaded and run
+    pub phase2: usize,
+    /// the program again, with some runs of words replaced by reserved (.blkw) words
+    pub reload: Vec<Option<u16>>,
 }
 
 pub fn decode(tape: &[u32]) -> Case {
@@ -29,7 +34,21 @@ pub fn decode(tape: &[u32]) -> Case {
         (t.raw() as u64, a, a + t.pick(30) as u32, t.pick(8) as u8)
     });
     let half_open = t.chance(1, 2);
-    Case { prog, real, init, timer, half_open }
+    let phase2 = t.pick(3);
+    let mut reload: Vec<Option<u16>> = prog.words.iter().map(|w| Some(*w)).collect();
+    if phase2 != 0 {
+        let mut left = 0;
+        for w in reload.iter_mut() {
+            if left == 0 && t.chance(1, 6) {
+                left = 1 + t.pick(4);
+            }
+            if left > 0 {
+                *w = None;
+                left -= 1;
+            }
+        }
+    }
+    Case { prog, real, init, timer, half_open, phase2, reload }
 }
 
 fn mem_digest(sim: &Simulator) -> u64 {
@@ -70,6 +89,42 @@ fn trace(c: &Case, st: &mut Stats) -> Vec<(u16, u16, [u16; 8], u64, u64)> {
         if r.is_err() || !rig.sim.mcr().load(std::sync::atomic::Ordering::Relaxed) || (!c.real && rig.sim.mem[pc0].get() == 0xF025 && rig.sim.pc == pc0 && rig.sim.instructions_run == n0) {
             break;
         }
+    }
+    if c.phase2 != 0 {
+        // the history goes on: (reset,) load an object file with reserved words over the machine the program has
+        // written to, and execute again
+        out.push((0, 0, [0; 8], 0, mem_digest(&rig.sim)));
+        if c.phase2 == 2 {
+            rig.sim.reset();
+            out.push((rig.sim.pc, rig.sim.psr().get(), [0; 8], 1, mem_digest(&rig.sim)));
+        }
+        let mut src = format!(".orig x{:04X}\n", c.prog.origin);
+        for w in &c.reload {
+            match w {
+                Some(v) => src.push_str(&format!(".fill x{v:04X}\n")),
+                None => src.push_str(".blkw 1\n"),
+            }
+        }
+        src.push_str(".end\n");
+        let obj = lc3_ensemble::asm::assemble(lc3_ensemble::parse::parse_ast(&src).expect("reload source parses")).expect("reload source assembles");
+        rig.sim.load_obj_file(&obj).expect("reload object loads");
+        out.push((rig.sim.pc, rig.sim.psr().get(), [0; 8], 2, mem_digest(&rig.sim)));
+        rig.sim.pc = c.prog.origin;
+        rig.sim.mcr().store(true, std::sync::atomic::Ordering::Relaxed);
+        for step in 0..1500usize {
+            let (pc0, n0) = (rig.sim.pc, rig.sim.instructions_run);
+            let r = rig.sim.step_in();
+            let mut regs = [0u16; 8];
+            for i in 0..8 {
+                regs[i] = rig.sim.reg_file[reg(i)].get();
+            }
+            let digest = if step % 64 == 0 || r.is_err() { mem_digest(&rig.sim) } else { 0 };
+            out.push((rig.sim.pc, rig.sim.psr().get(), regs, rig.sim.instructions_run, digest));
+            if r.is_err() || !rig.sim.mcr().load(std::sync::atomic::Ordering::Relaxed) || (!c.real && rig.sim.mem[pc0].get() == 0xF025 && rig.sim.pc == pc0 && rig.sim.instructions_run == n0) {
+                break;
+            }
+        }
+        st.class(if c.phase2 == 2 { "history:run-reset-load-run" } else { "history:run-reload-run" });
     }
     let disp = rig.display.as_ref().unwrap().read().unwrap().clone();
     out.push((0, 0, [0; 8], disp.len() as u64, fxhash(&disp)));
@@ -135,6 +190,11 @@ pub fn check(tape: &[u32], st: &mut Stats) -> Result<(), String> {
     } else {
         st.class("seeded-init");
     }
+    for k in ["history:run-reset-load-run", "history:run-reload-run"] {
+        if local.classes.contains_key(k) {
+            st.class(k);
+        }
+    }
     let fired = local.classes.contains_key("timer-interrupt-fired");
     if fired {
         st.class("timer-interrupt-fired");
@@ -155,13 +215,13 @@ pub fn describe(tape: &[u32]) -> Value {
 
 pub fn run(ctx: &Ctx) -> Outcome {
     let mut out = Outcome::new(
-        "generated programs x 64-bit seeds x seeded timer ranges (vector x81 without handler, so the OS's missing-handler routine runs) x real/virtual traps; two independently built simulators must produce identical traces: per step PC, PSR, R0-R7, instruction count, a digest of all 65536 words incl. initialisation masks every 64 steps, final output and final memory digest; \
+        "generated programs x 64-bit seeds x seeded timer ranges (vector x81 without handler, so the OS's missing-handler routine runs) x real/virtual traps; two independently built simulators must produce identical traces: per step PC, PSR, R0-R7, instruction count, a digest of all 65536 words incl. initialisation masks every 64 steps, final output and final memory digest; in two thirds of the cases the history goes on after the program has ended - (reset,) an object file with the program and some reserved (.blkw) words is loaded over the used machine and up to 1500 more steps are traced; \
          Known{v}: every register and every word of x3000-xFDFF equals v, the I/O page is zero, and a word below x3000 may differ from v only if it is identical for another fill value (OS image); non-trivial = Seeded initialisation or a timer interrupt fired; distinct by tape",
     );
     let cfg = TapeCfg::new(ctx, 120, 5_000, 600);
     out.shards = cfg.shards;
     out.absorb(tape_search(ctx, "main", &cfg, check, describe));
-    out.essential = vec!["seeded-init".into(), "known-init".into(), "timer-interrupt-fired".into()];
+    out.essential = vec!["seeded-init".into(), "known-init".into(), "timer-interrupt-fired".into(), "history:run-reset-load-run".into(), "history:run-reload-run".into()];
     out
 }
 
